@@ -160,6 +160,27 @@ def headers_shared_page(codec, ident, comment, setup_len=3553, serial=0x1234ABCD
     return stream(serial, plan + audio_plan(codec))
 
 
+def foreign_page_one(pages, codec, bos_first):
+    """multiplex a second logical stream (unknown codec) so that ITS page number 1 -- a complete page, its packet starting
+    with the bytes a comment header of `codec` starts with -- lies between the first page of the stream `pages` and that
+    stream's comment page: first pages of both streams first (RFC 3533; the foreign one in front when bos_first), then
+    the foreign page 1, then the remaining headers"""
+    plan = [([b"fishead\x00" + pattern(56, 11, 5)], True, 0),
+            ([PREFIX.get(codec, b"") + pattern(180, 3, 2), pattern(40, 9, 1)], True, 100),
+            ([pattern(120, 13, 1)], True, 900), ([b"end of the foreign stream"], True, 1000)]
+    fp = stream_pages(FOREIGN_SERIAL, plan)
+    head = [fp[0], pages[0]] if bos_first else [pages[0], fp[0]]
+    return b"".join(head + [fp[1]] + pages[1:3] + [fp[2]] + pages[3:] + [fp[3]])
+
+
+def _mux(pages, ncomment, codec, foreign):
+    if foreign == "page1":
+        return foreign_page_one(pages, codec, False)
+    if foreign == "page1-bos-first":
+        return foreign_page_one(pages, codec, True)
+    return interleave(pages, ncomment) if foreign else b"".join(pages)
+
+
 def headers_own_pages(codec, ident, comment, serial=0x0BADCAFE, setup_len=700, page_size=4080, foreign=False):
     """[ident] [comment on pages of its own ...] [setup on a fresh page] audio; codecs without setup header: audio follows.
     foreign: a second logical stream multiplexed in, one of its pages between every two pages of the comment packet"""
@@ -168,7 +189,7 @@ def headers_own_pages(codec, ident, comment, serial=0x0BADCAFE, setup_len=700, p
     if codec in SETUP:
         plan.append(([SETUP[codec] + pattern(setup_len - 7, 13, 0, 256)], True, 0))
     pages = stream_pages(serial, plan + audio_plan(codec))
-    return interleave(pages, len(cp)) if foreign else b"".join(pages)
+    return _mux(pages, len(cp), codec, foreign)
 
 
 def flac_ident(ident, count):
@@ -191,7 +212,7 @@ def oggflac(ident, vendor, items, behind=(), serial=0x0F1AC0DE, comment_pages=Fa
     for b in blocks[1:]:
         plan.append(([b], True, 0))
     pages = stream_pages(serial, plan + audio_plan("flac"))
-    return interleave(pages, len(cp)) if foreign else b"".join(pages)
+    return _mux(pages, len(cp), "flac", foreign)
 
 
 VENDOR = b"Xiph.Org libVorbis I 20200704"
@@ -246,4 +267,11 @@ def layouts(kind, base):
         out.append(("layout-comment-last-block+" + name0, oggflac(ident, fv, ITEMS)))
         out.append(("layout-blocks-behind-comment+" + name0,
                     oggflac(ident, fv, ITEMS, behind=[(2, b"aPpL" + pattern(40)), (1, bytes(300))])))
+    # the OTHER stream's page number 1 lies between the first page of the tagged stream and its comment page
+    for how in ("page1", "page1-bos-first"):
+        nm = "layout-foreign-%s-before-comment+%s" % (how, name0)
+        if c == "flac":
+            out.append((nm, oggflac(ident, b"reference libFLAC 1.3.2 20170101", ITEMS, behind=[(1, bytes(64))], foreign=how)))
+        else:
+            out.append((nm, headers_own_pages(c, ident, comment_packet(c, VENDOR, ITEMS, 600), foreign=how)))
     return out
